@@ -241,7 +241,7 @@ class NameGen:
 WEIGHTS = {
     'add_fp': 30, 'add_dir': 14, 'rm_file': 6, 'rm_dir': 4, 'add_link': 8, 'rm_link': 5,
     'add_symlink': 5, 'hide': 3, 'add_eltorito': 3, 'rm_eltorito': 1, 'add_isohybrid': 1,
-    'rm_isohybrid': 1, 'dup_pvd': 0.3, 'restart': 4, 'mass_dirs': 1, 'mass_files': 1, 'add_boot_file': 0, 're_add': 1.5, 'chain_dirs': 0.8, 'mass_eltorito': 0.05, 'shared_hidden_boot': 0.5, 'hybrid_setup': 0.3, 'set_relocated_name': 0.6, 'recreate_dir': 1.2, 'mass_rm_dirs': 0.8, 'ptr_cycle': 0.04,
+    'rm_isohybrid': 1, 'dup_pvd': 0.3, 'restart': 4, 'mass_dirs': 1, 'mass_files': 1, 'add_boot_file': 0, 're_add': 1.5, 'chain_dirs': 0.8, 'mass_eltorito': 0.05, 'shared_hidden_boot': 0.5, 'hybrid_setup': 0.3, 'set_relocated_name': 0.6, 'recreate_dir': 1.2, 'mass_rm_dirs': 0.8, 'twin_links': 0.6, 'ptr_cycle': 0.04,
 }
 
 
@@ -985,6 +985,58 @@ class OpGen:
         e1 = {'op': 'add_eltorito', 'boot': op['iso'], 'media': 'noemul', 'platform': 0, 'bootable': True, 'load_seg': 0, 'efi': False, 'bit': r.random() < 0.4}
         e2 = dict(e1, efi=True, platform=0xef, bit=False)
         return [op, e1, e2, {'op': 'rm_link', 'ns': 'iso', 'path': op['iso']}]
+
+    def g_twin_links(self):
+        """Macro-op: one content under the same leaf name in two directories of one namespace, made in the same second (the two
+        records then differ in nothing but their parent), a restart, one of the two names unlinked, another file added."""
+        m = self.m
+        r = self.ra
+        ns = r.choice([n_ for n_ in ('iso', 'joliet') if n_ in m.roots])
+        lim = (7 if not (m.rr or m.cfg['level'] == 4) else None) if ns == 'iso' else None
+        d1 = self._pick_dir(ns, lim)
+        d2 = self._pick_dir(ns, lim)
+        out = []
+        if d1 is None or d2 is None:
+            return None
+        if d1 == d2:
+            nm = self._new_iso_name('/', True) if ns == 'iso' else self._new_uni_name(ns, '/', 20)
+            if nm is None or (ns == 'iso' and not M._valid_new(m, 'iso', M.join('/', nm), True)):
+                return None
+            mk = {'op': 'add_dir', ns: M.join('/', nm)}
+            if ns == 'iso' and m.rr:
+                rn = self._new_rr_name('/')
+                if rn is None:
+                    return None
+                mk['rr'] = rn
+            out.append(mk)
+            d2 = mk[ns]
+        leaf = self._new_iso_name(d1, False, long_ok=False) if ns == 'iso' else self._new_uni_name(ns, d1, 40)
+        if leaf is None or (m.get(ns, d2) is not None and leaf in m.get(ns, d2).children):
+            return None
+        first = {'op': 'add_fp', 'blob': self.next_blob, 'len': r.choice((1, 100, 2048, 2049, 6000)), 'route': 'fp', ns: M.join(d1, leaf), '_same_instant': True}
+        self.next_blob += 1
+        if ns != 'iso' and r.random() < 0.5:
+            p0 = self._pick_dir('iso', 7 if not (m.rr or m.cfg['level'] == 4) else None)
+            n0 = self._new_iso_name(p0, False, long_ok=False) if p0 is not None else None
+            if n0 is not None:
+                first['iso'] = M.join(p0, n0)
+        rr1 = rr2 = None
+        if 'iso' in first and m.rr:
+            rr1 = self._new_rr_name(M.split(first['iso'])[0])
+            if rr1 is None:
+                return None
+            first['rr'] = rr1
+        link = {'op': 'add_link', 'old_ns': ns, 'old': first[ns], 'new_ns': ns, 'new': M.join(d2, leaf), '_same_instant': True}
+        if ns == 'iso' and m.rr:
+            link['rr'] = rr1 if r.random() < 0.6 else (self._new_rr_name(d2) or rr1)
+        out += [first, link]
+        if r.random() < 0.7:
+            out.append({'op': 'restart'})
+        out.append({'op': 'rm_link', 'ns': ns, 'path': r.choice((first[ns], link['new']))})
+        extra = self.g_add_fp()
+        if extra is not None:
+            out.append(extra)
+        return out
 
     def g_mass_rm_dirs(self):
         """Macro-op: most of the empty directories of a crowded parent go away again, so that directory extents and the
